@@ -594,6 +594,9 @@ def fifths_mode_to_key_name(fifths, mode=None):
         raise Exception("Unknown mode {}".format(mode))
 
     try:
+        if fifths < -7:
+            # negative indices would wrap around to another key
+            raise IndexError
         name = keylist[fifths + 7]
     except IndexError:
         raise Exception("Unknown number of fifths {}".format(fifths))
